@@ -229,8 +229,18 @@ def r5_storing_copies_every_item(ctx):
     param_binding_rule(ctx)
 
 
+def r6_a_copy_that_was_read_keeps_its_elements(ctx):
+    """`Every element keeps its value until it is itself overwritten` - also the elements of the copy an expression has just
+    read: an array read as an operand borrows the string elements of the variable it was read from, and a later operand of
+    the same expression may overwrite those (`[names, [rename()]]`).  Shared with C02-R6: a value kept across a call that can
+    release a pool slot owns its storage, or is kept raw only behind a sound `cannot run code` test of everything that runs
+    meanwhile (an array literal is not such a thing: `[f()]` runs f)."""
+    from .c02 import r6_nothing_borrowed_is_held_across_recycling
+    r6_nothing_borrowed_is_held_across_recycling(ctx)
+
+
 RULES = [("C05-R1", r1_no_shallow_copy_possible), ("C05-R2", r2_deep_clone_complete), ("C05-R3", r3_reads_clone_and_mutation_needs_lvalue),
-         ("C05-R4", r4_mutation_target_is_the_lexical_variable), ("C05-R5", r5_storing_copies_every_item)]
+         ("C05-R4", r4_mutation_target_is_the_lexical_variable), ("C05-R5", r5_storing_copies_every_item), ("C05-R6", r6_a_copy_that_was_read_keeps_its_elements)]
 
 
 def extra_thorough(ctx):
